@@ -1,6 +1,6 @@
 (* C09 — rolling operations are per-group sliding-window reductions. *)
 From Coq Require Import List ZArith Bool.
-From GL Require Import Lib.Arr Lib.Keyed Model.Dom Model.Rolling Proofs.RowGeneric Proofs.RollingInv Proofs.CumSpec Proofs.RollSpec Proofs.RollExt Spec.RowSpec Model.Reduce Proofs.GenTie Gen.TablesGen.
+From GL Require Import Lib.Arr Lib.Keyed Model.Dom Model.Rolling Proofs.RowGeneric Proofs.RollingInv Proofs.CumSpec Proofs.RollSpec Proofs.RollExt Spec.RowSpec Model.Reduce Proofs.GenTie Gen.TablesGen Proofs.CompensatedSum.
 Import ListNotations.
 Open Scope Z_scope.
 
@@ -144,3 +144,35 @@ Example C09_example :
   (snd (sum_step (zops false 0) 3 2 false (run_sum (zops false 0) 3 2 false [5; 1; 2; 7]) (10, true)) = 19) /\
   (snd (shift_step (zops false 0) 2 true (run_shift (zops false 0) 2 true [5; 1; 2; 7]) (10, true)) = 2).
 Proof. split; vm_compute; reflexivity. Qed.
+
+(* Floating point (IEEE-754 binary64, round to nearest even, Flocq): the running sum s of a window and the error terms
+   e_i the kernel records (Fast2Sum) add up EXACTLY to the sum of all additions (+val) and removals (-old_val): a value
+   that has left the window leaves nothing behind.  What remains is second order: each e_i is at most half an ulp of
+   the sum it corrects, and adding them up in the compensation c rounds by at most half an ulp of c. *)
+From Coq Require Import Reals.
+Theorem C09_running_sum_loses_nothing xs s E : fmt64 s -> Forall fmt64 xs ->
+  (fst (crun xs s E) + snd (crun xs s E) = s + E + rsum xs)%R.
+Proof. exact (run_exact xs s E). Qed.
+Print Assumptions C09_running_sum_loses_nothing.
+
+Theorem C09_a_value_that_left_leaves_nothing xs gone inside :
+  Forall fmt64 xs -> (rsum xs = rsum gone + rsum (map Ropp gone) + rsum inside)%R ->
+  (fst (crun xs 0 0) + snd (crun xs 0 0) = rsum inside)%R.
+Proof. exact (nothing_left_behind xs gone inside). Qed.
+Print Assumptions C09_a_value_that_left_leaves_nothing.
+
+Theorem C09_reported_sum xs s c D : fmt64 s -> Forall fmt64 xs ->
+  let '(s', c', D') := krun xs s c D in (s' + c' = s + c + rsum xs + (D' - D))%R.
+Proof. exact (krun_exact xs s c D). Qed.
+Print Assumptions C09_reported_sum.
+
+Theorem C09_error_terms_are_second_order s x c e : fmt64 s -> fmt64 x ->
+  (Rabs (err_term s x) <= / 2 * Ulp.ulp Zaux.radix2 fexp (s + x))%R /\
+  (Rabs (fl64 (c + e) - (c + e)) <= / 2 * Ulp.ulp Zaux.radix2 fexp (c + e))%R.
+Proof. intros Fs Fx. exact (conj (err_term_small s x Fs Fx) (comp_round_small c e)). Qed.
+Print Assumptions C09_error_terms_are_second_order.
+
+(* Tie B: the update statements of the kernel are the ones the theorems above are about, on this crun *)
+Theorem C09_sum_updates_are_the_source's : gen_rolling_sum_updates = rolling_sum_updates.
+Proof. exact tie_rolling_sum_updates. Qed.
+Print Assumptions C09_sum_updates_are_the_source's.
